@@ -51,6 +51,8 @@ def tlc_c09(mode, plat, lang, work, extra_env=None):
         env.update(extra_env)
     r = vlib.tlc("C09", "Empty.cfg", env=env, workers=1, timeout=1500, xmx="3g")
     if not r.ok:
+        if os.environ.get("C09_DEBUG_DIR"):
+            open(os.path.join(os.environ["C09_DEBUG_DIR"], "fail-%s-%s-%s.log" % (mode, plat, lang.replace("+", "x"))), "w").write(r.out)
         raise vlib.InfraError("model failure in C09.tla (%s %s %s, rc=%s)\n%s" % (mode, plat, lang, r.rc, r.out[-3000:]))
     return r
 
@@ -60,7 +62,8 @@ def run_shard(args):
     work = vlib.mktmp("c09-%s-%s" % (plat, "cxx" if lang == "c++" else "c"))
     # gen -> probe (cppcheck --dump + clang, drivers/c09probe.py via IOExec) -> judge, in one TLC run
     r = tlc_c09("run", plat, lang, work, {"C09_WORK": work, "C09_DRIVER": os.path.join(vlib.VERIF, "drivers", "c09probe.py"),
-                                          "CPROBE_CPPCHECK": cprobe.private_cppcheck(), "VERIF_TMP": work})
+                                          "CPROBE_CPPCHECK": cprobe.private_cppcheck(), "VERIF_TMP": work,
+                                          "JDK_JAVA_OPTIONS": "-Xss256m"})
     m = re.search(r'"C09VERDICT",(.*?)>>', r.out.replace("\n", " "))
     if not m:
         raise vlib.InfraError("C09.tla gave no verdict for %s/%s\n%s" % (plat, lang, r.out[-2000:]))
